@@ -53,6 +53,27 @@ def rat(x):
     return [f.numerator, f.denominator]
 
 
+def integer(x):
+    """items are design-unit integers"""
+    f = fr(x)
+    if f.denominator != 1 or abs(f.numerator) > MAXI:
+        raise OutOfDomain("item value that is not a 31-bit integer")
+    return int(f)
+
+
+def glyph_mag(rec):
+    """largest |coordinate| + sum over tuples of the largest |delta| (overflow guard of the integer path)"""
+    big = 0
+    for p in rec["pts"]:
+        big = max(big, abs(p[0]), abs(p[1]))
+    for m in rec["m"]:
+        for p in m:
+            big = max(big, abs(p[0]), abs(p[1]))
+    for tv in rec["tv"]:
+        big += max([max(abs(d[0]), abs(d[1])) for d in tv["d"] if d] + [0])
+    return min(big, MAXI)
+
+
 class Regions:
     def __init__(self, tags):
         self.tags = tags
@@ -85,7 +106,7 @@ def store_rows(varstore, rmap, outer, inner):
     if outer >= len(varstore.VarData) or inner >= len(varstore.VarData[outer].Item):
         raise OutOfDomain("variation index outside its store")
     vd = varstore.VarData[outer]
-    return [[rmap[ri], rat(d)] for ri, d in zip(vd.VarRegionIndex, vd.Item[inner]) if d]
+    return [[rmap[ri], integer(d)] for ri, d in zip(vd.VarRegionIndex, vd.Item[inner]) if d]
 
 
 def dev_index(dev):
@@ -172,8 +193,10 @@ def project_gvar(vf, masters, regions, names, skips):
                     skips["gvar: master glyph with the advance sentinel"] = skips.get("gvar: master glyph with the advance sentinel", 0) + 1
                 else:
                     ms.append([list(p) for p in mp[0]])
-            out.append({"n": g, "den": 1, "pts": [list(p) for p in pts] + [[0, 0], [0, 0]], "ends": ends,
-                        "cmp": len(pts), "tv": tvs, "m": ms})
+            rec = {"n": g, "den": 1, "pts": [list(p) for p in pts] + [[0, 0], [0, 0]], "ends": ends,
+                   "cmp": len(pts), "tv": tvs, "m": ms}
+            rec["mag"] = glyph_mag(rec)
+            out.append(rec)
         except OutOfDomain as e:
             skips["gvar: " + str(e)] = skips.get("gvar: " + str(e), 0) + 1
     return out
@@ -260,6 +283,49 @@ def drawn_path(font, g):
     return out
 
 
+def unmerge_lines(mpts, kinds):
+    """The charstring specializer (no topology preservation) writes two consecutive lines along the same
+    axis as one; the master keeps both.  Where a run of lines is longer in the master than in the built
+    font by exactly the number of such interior points, drop them (same outline, canonical form).
+    Anything else is left alone (and shows as a structure mismatch / ambiguity)."""
+    def runs(ks):
+        out, i = [], 0
+        while i < len(ks):
+            if ks[i] == "L":
+                j = i
+                while j < len(ks) and ks[j] == "L":
+                    j += 1
+                out.append((i, j))
+                i = j
+            else:
+                out.append((i, i + 1))
+                i += 1
+        return out
+
+    mk = [p[0] for p in mpts]
+    rm, rv = runs(mk), runs(kinds)
+    if len(rm) != len(rv):
+        return mpts
+    drop = set()
+    for (a, b), (c, d) in zip(rm, rv):
+        if mk[a] != kinds[c]:
+            return mpts
+        extra = (b - a) - (d - c)
+        if extra == 0:
+            continue
+        if mk[a] != "L" or extra < 0 or a == 0:
+            return mpts
+        cand = []
+        for j in range(a, b - 1):
+            (x0, y0), (x1, y1), (x2, y2) = mpts[j - 1][1:], mpts[j][1:], mpts[j + 1][1:]
+            if (y0 == y1 == y2) or (x0 == x1 == x2):
+                cand.append(j)
+        if len(cand) != extra:
+            raise OutOfDomain("line merging of the specializer cannot be undone unambiguously")
+        drop |= set(cand)
+    return [p for j, p in enumerate(mpts) if j not in drop]
+
+
 def project_cff(vf, masters, regions, names, skips):
     out = []
     top = _cff_top(vf)
@@ -310,12 +376,16 @@ def project_cff(vf, masters, regions, names, skips):
                     ms.append([])
                     continue
                 if [p[0] for p in mpts] != kinds:
+                    mpts = unmerge_lines(mpts, kinds)
+                if [p[0] for p in mpts] != kinds:
                     ms.append([[12345678, 12345678]])  # a different path structure: shows as a point-count mismatch
                     continue
                 ms.append([[sc(fr(x)), sc(fr(y))] for _, x, y in mpts])
             ends = [i - 1 for i, kd in enumerate(kinds) if kd == "M" and i > 0] + ([len(kinds) - 1] if kinds else [])
-            out.append({"n": g, "den": den, "pts": [[sc(xs[0]), sc(ys[0])] for _, xs, ys in pts] + [[0, 0]] * 4, "ends": ends,
-                        "cmp": len(pts), "tv": tvs, "m": ms})
+            rec = {"n": g, "den": den, "pts": [[sc(xs[0]), sc(ys[0])] for _, xs, ys in pts] + [[0, 0]] * 4, "ends": ends,
+                   "cmp": len(pts), "tv": tvs, "m": ms}
+            rec["mag"] = glyph_mag(rec)
+            out.append(rec)
         except OutOfDomain as e:
             skips["cff: " + str(e)] = skips.get("cff: " + str(e), 0) + 1
     return out
@@ -346,8 +416,8 @@ def project_advances(vf, masters, regions, names, skips, tag="HVAR", mtx="hmtx",
                 if mtx not in m or g not in m[mtx].metrics or m[mtx].metrics[g][0] == ADVANCE_SENTINEL:
                     vals.append([])
                 else:
-                    vals.append(rat(m[mtx].metrics[g][0]))
-            out.append({"n": "%s:%s" % (tag, g), "b": rat(vf[mtx].metrics[g][0]), "r": store_rows(table.VarStore, rmap, outer, inner), "v": vals})
+                    vals.append([integer(m[mtx].metrics[g][0])])
+            out.append({"n": "%s:%s" % (tag, g), "b": integer(vf[mtx].metrics[g][0]), "r": store_rows(table.VarStore, rmap, outer, inner), "v": vals})
         except OutOfDomain as e:
             skips["%s: %s" % (tag, e)] = skips.get("%s: %s" % (tag, e), 0) + 1
     return out
@@ -371,12 +441,13 @@ def project_mvar(vf, masters, regions, skips):
             elif tag in ("unds", "undo") and getattr(m[tbl], field) == POST_SENTINEL:
                 vals.append([])
             else:
-                vals.append(rat(getattr(m[tbl], field)))
+                vals.append([getattr(m[tbl], field)])
         try:
+            vals = [v if not v else [integer(v[0])] for v in vals]
             rows = []
             if tag in recs:
                 rows = store_rows(vf["MVAR"].table.VarStore, rmap, recs[tag] >> 16, recs[tag] & 0xFFFF)
-            out.append({"n": "MVAR:" + tag, "b": rat(getattr(vf[tbl], field)), "r": rows, "v": vals})
+            out.append({"n": "MVAR:" + tag, "b": integer(getattr(vf[tbl], field)), "r": rows, "v": vals})
         except OutOfDomain as e:
             skips["MVAR: " + str(e)] = skips.get("MVAR: " + str(e), 0) + 1
     return out
@@ -532,7 +603,7 @@ def project_gpos(vf, masters, regions, rng, skips, per_lookup=40):
             if vi is not None and store is None:
                 raise OutOfDomain("variation index without GDEF store")
             rows = store_rows(store, rmap, vi[0], vi[1]) if vi is not None else []
-            items.append({"n": name, "b": rat(base), "r": rows, "v": [[] if v is None else rat(v) for v in mvs]})
+            items.append({"n": name, "b": integer(base), "r": rows, "v": [[] if v is None else [integer(v)] for v in mvs]})
         except OutOfDomain as e:
             skips["GPOS: " + str(e)] = skips.get("GPOS: " + str(e), 0) + 1
 
